@@ -30,6 +30,7 @@ class Recorder:
         self.events = events
         self.cur = None
         self.ids = {v: k for k, v in idx.items()}
+        self.visits = 0
 
     def _finish(self, plan):
         if self.cur is not None:
@@ -39,6 +40,9 @@ class Recorder:
 
     def evaluate_condition(self, stmt):
         self._finish([stmt.id] + list(self.ctrl.plan))
+        self.visits += 1
+        if self.visits > 3 * len(self.idx) + 6:
+            raise Cut()                      # a controller that never finishes the step: the repeated visits are in the trace
         s = self.idx[stmt.id]
         self.cur = {"ev": "pop", "s": s, "g": bool(self.guards[s - 1]), "req": [], "cut": False,
                     "executed": sorted(self.idx[e] for e in self.ctrl.executed_ids)}
